@@ -113,7 +113,7 @@ pub fn run(run: &mut Run) {
         });
         run.direct(|| json!({"golden": name}), r);
     }
-    let (lanes, cases) = if run.thorough() { (16, 20000) } else { (16, 1500) };
+    let (lanes, cases) = if run.thorough() { (16, 20000) } else { (16, 4000) };
     run_tapes(run, lanes, cases, 1200, &check);
 }
 
